@@ -154,6 +154,7 @@ fn test_stream(case: &StreamCase) -> TestResult {
             .class(changed, "normaliser-changes-text")
             .class(multibyte, "multi-byte")
             .class(text.contains('\r') || text.contains('\n'), "CR/LF")
+            .class(text.is_ascii() && text.contains("\r\n"), "ascii-only-with-CRLF")
             .class(toks.len() >= 2, ">=2-tokens");
     }
     info.nontrivial = nontrivial;
@@ -194,9 +195,15 @@ fn stream_strategy(with_nul: bool) -> impl Strategy<Value = StreamCase> {
             let mut pal: Vec<char> = mc.texts.iter().flat_map(|t| t.chars()).collect();
             pal.sort();
             pal.dedup();
+            // texts of one byte class only (every fifth): pure ASCII with CR LF pairs, the only
+            // ASCII grapheme cluster of two characters
+            const ASCII_POOL: &[&str] = &["a", "b", "Z", "0", "9", " ", "\r\n", "\r", "\n", "-", ".", "/", "\\", ",", "x", "\r\n"];
             let mut texts: Vec<String> = raw
                 .iter()
                 .map(|r| {
+                    if r.first().map_or(false, |f| f % 5 == 0) {
+                        return r.iter().map(|&i| ASCII_POOL[pick(i, ASCII_POOL.len())]).collect::<String>();
+                    }
                     r.iter()
                         .map(|&i| {
                             if i < 36000 {
